@@ -776,6 +776,16 @@ inline int main(int argc, char **argv, const char *binName)
     return 0;
   }
   double hang_s = getenv("PBT_HANG_S") ? atof(getenv("PBT_HANG_S")) : 120.0;
+  // The watchdog is a second thread.  A process that fork()s while another thread exists can hand the child a lock
+  // that is held for ever (observed: the sanitizer allocator's mutex, taken by the watchdog thread during its own
+  // start-up -> the child's first new thread dead-locks).  Harnesses that fork per case define PBT_NO_WATCHDOG (their
+  // children bound themselves with alarm()), and the fork-per-candidate minimiser runs without it, too.
+#ifdef PBT_NO_WATCHDOG
+  const bool watchdog = false;
+#else
+  const bool watchdog = !(argc >= 2 && std::string(argv[1]) == "--minimize");
+#endif
+  if (watchdog)
   std::thread([hang_s] {
     Global &g = G();
     for (;;) {
